@@ -166,14 +166,35 @@ pub fn repo_root() -> String {
     r.trim_end_matches('/').to_string()
 }
 
+/// Stable class of a panic message: its first words, digits and punctuation removed.
+pub fn msg_class(msg: &str) -> String {
+    let mut out = String::new();
+    let mut last_dash = true;
+    // only the part before the value ("called `Result::unwrap()` on an `Err` value: <value>")
+    let msg = msg.split(": ").next().unwrap_or(msg);
+    for c in msg.chars().take(64) {
+        if c.is_ascii_alphabetic() {
+            out.push(c.to_ascii_lowercase());
+            last_dash = false;
+        } else if !last_dash {
+            out.push('-');
+            last_dash = true;
+        }
+    }
+    out.trim_end_matches('-').to_string()
+}
+
 /// Panic location + message -> (signature, is harness bug).
 pub fn classify_panic(file: &str, line: u32, msg: &str) -> (String, bool) {
     let root = repo_root();
+    // the signature names the file and the kind of panic, not the line: unrelated edits above the
+    // site must not turn a known finding into an unknown one (the line is in the description)
+    let _ = line;
     if let Some(rel) = file.strip_prefix(&format!("{root}/")) {
-        return (format!("panic@{rel}:{line}"), false);
+        return (format!("panic@{rel}:{}", msg_class(msg)), false);
     }
     if let Some(rel) = file.strip_prefix("/repo/") {
-        return (format!("panic@{rel}:{line}"), false);
+        return (format!("panic@{rel}:{}", msg_class(msg)), false);
     }
     if file.contains("/verif/harness/") || file.starts_with("panicx/") || file.starts_with("mc-core/") {
         return (format!("harness@{file}:{line}"), true);
@@ -227,6 +248,17 @@ pub fn normalize_msg(msg: &str) -> String {
         out.truncate(i);
     }
     out.trim().to_string()
+}
+
+/// Oracle clause a signature belongs to.
+pub fn clause_of(sig: &str) -> &'static str {
+    if sig.starts_with("unbounded-loop") {
+        "terminates"
+    } else if sig.starts_with("abort") {
+        "no-abort"
+    } else {
+        "no-panic"
+    }
 }
 
 pub enum Ran {
@@ -329,6 +361,10 @@ pub fn plan(group: &Group, thorough: bool) -> Vec<Unit> {
             }
         }
     }
+    // single mutations first, then token strings and double mutations in step across the targets
+    // (shortest strings of every target before the longest of any): a cap then cuts the deep end
+    // of every enumeration instead of whole targets. Stable, so the plan is a function of the tier.
+    units.sort_by_key(|u| (!matches!(u.phase, Phase::Mut1(_)) as u8, if matches!(u.phase, Phase::Mut1(_)) { 0 } else { u.start }));
     units
 }
 
@@ -798,7 +834,7 @@ pub fn sweep(group: &Group, cfg: SweepCfg) -> SweepResult {
                                         if better {
                                             let v = Violation {
                                                 property: PROP.into(),
-                                                clause: "no-panic".into(),
+                                                clause: clause_of(&sig).into(),
                                                 signature: sig.clone(),
                                                 what: format!("{} on input {:?} ({}): {}", t.name, mc_core::show_short(input, 120), mode.label(), what),
                                                 replay: rp,
